@@ -125,7 +125,7 @@ def structural(u, reason, prop, seed):
     d = os.path.join(VERIF, 'replay', 'out')
     os.makedirs(d, exist_ok=True)
     path = os.path.join(d, '%s.%s.structural.replay.txt' % (prop, u['name']))
-base = u['name']
+    base = u['name']
     while _re.search(_SUF, base):
         base = _re.sub(_SUF, '', base)
     fn = u.get('replay') or {'mpz_inp_raw': 'raw', 'mpz_inp_raw_p': 'raw', 'mpz_inp_raw_m': 'raw', 'mpz_out_raw': 'raw', 'mpz_out_raw_m': 'raw'}.get(base, base)
